@@ -47,18 +47,19 @@ static int n_open = 0, n_pwrite = 0;
 static unsigned char lock_fails[1024];
 static int shim_on = 0;
 static int n_lines = 0;
-#define MAXLOG 4000 /* a case that logs more than this is recursing or looping; the rest is dropped */
+#define MAXLOG 4000 /* ONE device call that logs more than this is recursing or looping (a call of the generated
+                       histories issues at most a few hundred system calls): the child reports TRUNC and exits 79 */
 
 void
 shim_log(const char* fmt, ...)
 {
     char buf[8192];
-    if (n_lines > MAXLOG)
-        return;
-    if (n_lines++ == MAXLOG) {
+    if (fmt[0] == 'O' && fmt[1] == ' ')
+        n_lines = 0; /* a new device call begins */
+    if (n_lines++ >= MAXLOG) {
         ssize_t r0 = write(1, "TRUNC\n", 6);
         (void)r0;
-        return;
+        _exit(79);
     }
     va_list ap;
     va_start(ap, fmt);
